@@ -452,7 +452,7 @@ def guard_rule(chk, db):
         chk.analysis_broken("GUARD: only %d bit-position operations matched the contract table" % n)
 
 
-META_EXTRA = 'PROXY (proxy assignments write through); STRBIT (string constructor maps the rightmost character to bit 0).'
+META_EXTRA = 'PROXY (proxy assignments write through); STRBIT (string constructor maps the rightmost character to bit 0); STRLEN (it uses min(n, size - pos) characters); SHIFT; PARAM.'
 META = (META[0] + " " + META_EXTRA, META[1])
 
 
